@@ -252,7 +252,8 @@ func (w *world) dealFrom(f, g *share.PriPoly, commits []kyber.Point, t uint32, i
 var dealClasses = []string{"honest", "honest", "honest", "badshare", "badshare", "badcommits-stale", "badcommits-resid",
 	"otherpoly", "wrongindex", "badT-stale", "badT-resid", "otherT", "wrongrecipient", "forgedsig-key", "forgedsig-bytes",
 	"wrongctx-verifiers", "wrongctx-dealer", "tampered", "replay", "sid-junk", "sid-swapped", "badrnd", "rndindex", "none",
-	"xsession-deal", "forgedsig-transplant", "dhkey-transplant", "equivocate-last", "equivocate-last", "none"}
+	"xsession-deal", "forgedsig-transplant", "dhkey-transplant", "equivocate-last", "equivocate-last", "none",
+	"mixed-indices", "mixed-indices", "mixed-indices", "extra-commitments", "extra-commitments", "extra-commitments", "missing-commitments"}
 
 type participant struct {
 	ver      Ver
@@ -417,6 +418,12 @@ func scenario(w *world, honest bool) {
 		if !honest {
 			class = dealClasses[rng.Intn(len(dealClasses))]
 		}
+		if P.Var() == 0 && class == "mixed-indices" {
+			class = "extra-commitments"
+		}
+		if class == "missing-commitments" && w.t < 3 {
+			class = "extra-commitments"
+		}
 		if P.Var() == 0 && (class == "badrnd" || class == "rndindex") {
 			class = "badshare"
 		}
@@ -527,6 +534,20 @@ func scenario(w *world, honest bool) {
 			base.V = w.s.Scalar().Add(base.V, w.s.Scalar().Mul(delta, xk))
 			base.Sid = w.regSid(w.dpub, w.vpub, base.Commits, base.T)
 			encs = append(encs, w.seal(base, i, class))
+		case "mixed-indices":
+			// Rabin: the two shares of the deal carry different indices and / or the values of ANOTHER verifier's
+			// honest deal (SecShare.I must stay i, or the deal is refused outright as misaddressed)
+			base = w.mixedDeal(honestDeals, i, j, rng.Intn(5))
+			encs = append(encs, w.seal(base, i, class))
+		case "extra-commitments":
+			// one or two EXTRA trailing commitments (index >= t) with the share moved onto the longer polynomial,
+			// same claimed T, session id re-hashed: a different sharing of higher degree
+			base = w.extendDeal(base, 1+rng.Intn(2))
+			encs = append(encs, w.seal(base, i, class))
+		case "missing-commitments":
+			// a sharing with one commitment FEWER than the claimed T
+			sf, sg, scommits := w.otherPoly(w.t - 1)
+			encs = append(encs, w.seal(w.dealFrom(sf, sg, scommits, w.t, i), i, class))
 		case "xsession-deal":
 			// the encrypted deal of the other session, replayed here: a consistent deal of the same dealer
 			encs = append(encs, s2encs[i])
@@ -666,7 +687,13 @@ func scenario(w *world, honest bool) {
 			&NJust{Idx: uint32(idx), Deal: bt, Tag: "bad-T"},
 			&NJust{Idx: uint32(idx), Deal: nil, Tag: "nil-deal"},
 			&NJust{Idx: uint32(w.n + rng.Intn(2)), Deal: honestDeals[idx].clone(), Tag: "index-out-of-range"},
-			&NJust{Idx: uint32(idx), Deal: D.Plain(idx).clone(), Tag: "dealer-current"})
+			&NJust{Idx: uint32(idx), Deal: D.Plain(idx).clone(), Tag: "dealer-current"},
+			&NJust{Idx: uint32(idx), Deal: w.extendDeal(honestDeals[idx].clone(), 1), Tag: "extra-commitments"})
+		if P.Var() == 1 {
+			for k := 0; k < 5; k++ {
+				l = append(l, &NJust{Idx: uint32(idx), Deal: w.mixedDeal(honestDeals, idx, j, k), Tag: "mixed-indices"})
+			}
+		}
 		// cross-session: the signed justification of the second session, as is, with the deal's session id
 		// rewritten, and with this session's good deal put under the other session's signature
 		for _, j2 := range s2justs {
@@ -851,6 +878,45 @@ func (w *world) sidBinding(mv *view, rng *vh.Rng) {
 		diff("verifier order", w.dpub, vs, mv.commits, mv.t)
 	}
 	diff("commitments truncated", w.dpub, w.vpub, mv.commits[:len(mv.commits)-1], mv.t)
+	ext := append(append([]kyber.Point(nil), mv.commits...), other)
+	diff("commitments extended", w.dpub, w.vpub, ext, mv.t)
+	diff("commitments extended by the identity", w.dpub, w.vpub, append(append([]kyber.Point(nil), mv.commits...), w.s.Point().Null()), mv.t)
+	diff("commitments extended twice", w.dpub, w.vpub, append(ext, w.s.Point().Base()), mv.t)
+}
+
+// mixedDeal (Rabin): a deal for verifier i whose two shares disagree in index and / or carry verifier k's values
+func (w *world) mixedDeal(honestDeals []*NDeal, i, k, kind int) *NDeal {
+	d := honestDeals[i].clone()
+	o := honestDeals[k]
+	switch kind {
+	case 0: // sec value and rnd share of k, rnd index k
+		d.V, d.RV, d.RI = o.V.Clone(), o.RV.Clone(), o.RI
+	case 1: // both values of k, both indices i
+		d.V, d.RV = o.V.Clone(), o.RV.Clone()
+	case 2: // own sec share, rnd share of k as is
+		d.RV, d.RI = o.RV.Clone(), o.RI
+	case 3: // sec value of k, own rnd share, rnd index k
+		d.V, d.RI = o.V.Clone(), o.RI
+	default: // own values, only the rnd index moved
+		d.RI = o.RI
+	}
+	return d
+}
+
+// extendDeal: extra trailing commitments r*G at indices >= len, the share moved onto the longer polynomial
+func (w *world) extendDeal(d *NDeal, extra int) *NDeal {
+	x := w.s.Scalar().SetInt64(int64(d.I) + 1)
+	for e := 0; e < extra; e++ {
+		r := w.pick()
+		xp := w.s.Scalar().One()
+		for k := 0; k < len(d.Commits); k++ {
+			xp = w.s.Scalar().Mul(xp, x)
+		}
+		d.Commits = append(d.Commits, w.s.Point().Mul(r, nil))
+		d.V = w.s.Scalar().Add(d.V, w.s.Scalar().Mul(r, xp))
+	}
+	d.Sid = w.regSid(w.dpub, w.vpub, d.Commits, d.T)
+	return d
 }
 
 // edgeT: an out-of-range threshold, from every boundary a range check could get wrong
